@@ -45,7 +45,8 @@ ASSUMPTIONS = [
 ]
 REQUIRED_MONITORS = ["crashes_delivered", "resumes_completed", "h5_files_compared", "xyz_files_compared",
                      "checkpoints_loaded_after_crash", "logical_crash_points", "exception_crashes",
-                     "sequence_scenarios", "syscall_kills", "random_sigkills", "publication_window_points"]
+                     "sequence_scenarios", "syscall_kills", "random_sigkills", "publication_window_points",
+                     "thermostatted_fssh_resumes_compared"]
 CASE_TIMEOUT = 1500.0
 # budgets are sized for 16 workers; with fewer workers (VERIF_NCPU) the same work needs proportionally longer
 _SCALE = max(1.0, 16.0 / max(1, env.NCPU)) * float(os.environ.get("VERIF_BUDGET_SCALE", "1"))   # >1 on a loaded machine
@@ -95,7 +96,9 @@ CONFIGS = {
     "cis-xl": _c("cis_xl", ["H2O"], 8, 2, k=3),
     "fssh": _c("fssh", ["NH3"], 6, 2),
     "fssh-ckpt1": _c("fssh", ["CH2O"], 6, 1, MIXED, na=2),
-    "fssh-damped": _c("fssh_damped", ["H2O"], 6, 2),
+    # thermostatted surface hopping with finite-difference couplings: the resumed process must neither consume random
+    # numbers nor change the coupling of its first step while it re-initialises
+    "fssh-damped": _c("fssh_damped", ["NH3"], 6, 2, damp=50.0),
     "ion-OH-": _c("bomd", ["OH-"], 6, 2),
     "ion-batch": _c("langevin", ["H2O", "OH-"], 6, 2, MIXED),
     "ion-H3O+": _c("xl", ["H3O+"], 6, 2, k=3),
@@ -151,6 +154,9 @@ def gen_cases(tier, seed):
         # every torch.save / os.replace / os.rename / os.remove / os.unlink / shutil.move made while it is written)
         add("bomd-all1", {"kind": "publication", "checkpoint": 2}, 100)
         add("langevin", {"kind": "publication", "checkpoint": 2}, 100)
+        # named cell: thermostatted FSSH, killed right after each checkpoint and two steps past one
+        add("fssh-damped", {"kind": "logical", "targets": ["save_checkpoint"], "phases": ["after"], "mod": [0, 1]}, 100)
+        add("fssh-damped", {"kind": "logical", "targets": ["step"], "phases": ["after"], "mod": [3, 6]}, 100)
 
         def sample(name, targets, m, take, rotate=True, **kw):
             r0 = int(g.integers(0, m)) if rotate else 0
@@ -362,12 +368,29 @@ def judge(case, cfg, ref, d, hist, mon, margins):
            "tb": err[0]["tb"][-600:] if err else None, "inspect": last_ckpt})
         return viol
     mon["resumes_completed"] += 1
+    if cfg["engine"] == "fssh_damped" and final["action"] == "resume":
+        mon["thermostatted_fssh_resumes_compared"] += 1
     # (3) ... and executes exactly the remaining planned steps
     start = final.get("resumed_from") or 0
     steps_run = [e["i"] for e in final["events"] if e.get("ev") == "call" and e.get("t") == "step"
                  and e.get("ph") == "after"]
     if final.get("log_calls", True) and steps_run != list(range(start, N)):
         v("planned-steps", {"executed": steps_run, "expected": [start, N]}, mech=None)
+    # (3b) surface hopping: the step label handed to the hop logger on integrator step i, and the hop log printed at
+    #      the end of the run, are those of the uninterrupted run
+    if cfg["engine"].startswith("fssh") and final.get("log_calls", True):
+        lab = mdio.hop_step_labels(final["events"])
+        refmap = dict(ref.get("hop_labels", []))
+        bad = [(i, l, refmap.get(i)) for i, l in lab if i in refmap and l != refmap[i]]
+        mon["hop_step_labels_compared"] += len(lab)
+        if bad:
+            shifted = final["action"] == "resume" and all(l == i + start for i, l, _ in bad) and len(bad) == len(lab)
+            v("hop-log-step-label", {"integrator_step,label,label_in_uninterrupted_run": bad[:6], "n": len(bad)},
+              mech="hop-log-step-double-offset-after-resume" if shifted else None)
+        got_log = mdio.read_hop_log(final["stdout"])
+        mon["hop_events_compared"] += len(ref.get("hop_log", [])) + len(got_log)
+        if got_log != ref.get("hop_log", []):
+            v("hop-log-printed", {"observed": got_log[:10], "expected": ref.get("hop_log", [])[:10]}, mech=None)
     # (4) HDF5 content identical to the uninterrupted run
     files = mdio.run_files(cfg)
     for mol in cfg["molid"]:
@@ -477,7 +500,7 @@ class Player:
         else:
             r = mdio.fork_child(job, timeout=400, kill_after=kill_after, kill_at=kill_at)
         rec = {"action": action, "code": r["code"], "timed_out": r["timed_out"], "events": mdio.read_events(evp),
-               "log_calls": log_calls}
+               "log_calls": log_calls, "stdout": outp}
         if action == "resume":
             rec["resumed_from"] = hist[-1]["ckpt_after"].get("step_done") if hist and hist[-1].get("ckpt_after") else None
         hist.append(rec)
@@ -596,7 +619,8 @@ def run_case(case):
     plan = case["plan"]
     mon = dict.fromkeys(REQUIRED_MONITORS + ["crash_points_not_reached", "h5_datasets_compared", "h5_files_bitwise_equal",
                                              "xyz_frames_compared", "cursor_rows_logged", "scenarios_judged",
-                                             "scenarios_watchdog", "reference_runs"], 0)
+                                             "scenarios_watchdog", "reference_runs", "hop_step_labels_compared",
+                                             "hop_events_compared"], 0)
     margins, cells, viol = {}, [], []
     obs = {"config": case["config"], "plan": plan["kind"], "scenarios": []}
     with env.Scratch("c10") as d:
@@ -614,7 +638,10 @@ def run_case(case):
         if miss:   # a refactor renamed a wrapped internal: say which, do not guess
             return {"inconclusive": "wrapped symbols not found in the repository: %s" % miss[0]}
         census = mdio.census(rev)
-        ref = {"h5": {}, "xyz": {}}
+        ref = {"h5": {}, "xyz": {}, "hop_labels": mdio.hop_step_labels(rev), "hop_log": mdio.read_hop_log(d + "/ref.out")}
+        if any(l != i for i, l in ref["hop_labels"]):
+            return {"inconclusive": "uninterrupted run labels hop-logger steps differently from the integrator index: %r"
+                                    % ref["hop_labels"][:4]}
         for fn in mdio.run_files(rcfg):
             if fn.endswith(".h5"):
                 ref["h5"][fn] = mdio.read_h5(rcfg["prefix"] + "." + fn)
